@@ -197,3 +197,154 @@ def ref_resolution_obligations(rep, tier, unit='wiring:reference-resolution'):
                 exp = [(('_ctx.' + w) if named and w.startswith('_try_') else w) for w in want]
                 ok = got == exp
             rep.add(unit, f'{title} [named={int(named)}]', 'case_complete', ok, detail={'requests': got, 'src': ast.unparse(fn)})
+
+
+WIRING_GRAMMARS = {
+    'plain': 'start = [A, "x"] | [A, "y"] | [Expect(A), A*]\nA = /a+/ >> B?\nB = "b" | C\nC = "c"',
+    'ignore': 'ignore Space = /[ \\t]+/\nignore /#[^\\n]*/\nstart = Word+ << Opt(".")\nWord = /[a-z]+/\nclass Pair {\n k: Word\n v: "=" >> Word\n}',
+    'template': 'T(x) = [x, x?]\nstart = T(A) | T("a") | T(A >> A)\nA = "a"',
+    'named': 'grammar wiringtest\nstart = A | B\nA = "a" >> B\nB = "b"\nclass K {\n a: A\n}',
+    'named-ignore': 'grammar wiringtest2\nignore Sp = " "\nstart = A+\nA = "a"',
+}
+
+
+def _module_tree(desc):
+    from pyvc import runtime
+    src = runtime.generated_module_source(desc)
+    return src, ast.parse(src)
+
+
+def no_direct_rule_calls(rep, tier, unit='wiring:every-rule-invocation-is-a-driver-request'):
+    """emitted code never CALLS a _try_* implementation (or a rule parameter) directly: every rule invocation is a
+    `yield (CALL, f, pos)` so that it goes through the memo of _run (C07, C17)"""
+    for name, desc in WIRING_GRAMMARS.items():
+        src, tree = _module_tree(desc)
+        bad = []
+        for n in ast.walk(tree):
+            if isinstance(n, ast.Call):
+                f = ast.unparse(n.func)
+                if f.split('.')[-1].startswith('_try_'):
+                    bad.append(ast.unparse(n)[:80])
+        rep.add(unit, f'no direct call of a rule implementation [{name}]', 'syntactic', not bad, detail={'calls': bad})
+        # _try_* may only be mentioned inside requests, _ParseFunction(...) arguments, _run(...) start argument and the _ctx epilogue
+        ok_ctx = True
+        for n in ast.walk(tree):
+            if isinstance(n, ast.Name) and n.id.startswith('_try_') and isinstance(n.ctx, ast.Load):
+                pass
+        rep.add(unit, f'requests have the form (CALL, callee, position) [{name}]', 'syntactic',
+                all(isinstance(y.value, ast.Tuple) and len(y.value.elts) == 3 for f in tree.body if isinstance(f, ast.FunctionDef)
+                    and f.name.startswith('_try_') for y in ast.walk(f) if isinstance(y, ast.Yield)))
+
+
+def ignored_rule_is_memoised(rep, tier, unit='wiring:ignored-rules-are-referenced-not-inlined'):
+    """the synthetic _ignored rule refers to the ignored rules BY REFERENCE (requests), so that their bodies are
+    memoised like any other rule (C07) and are exactly the declared rules (C04)"""
+    for name in ('ignore', 'named-ignore'):
+        src, tree = _module_tree(WIRING_GRAMMARS[name])
+        fn = next((n for n in tree.body if isinstance(n, ast.FunctionDef) and n.name == '_try__ignored'), None)
+        if fn is None:
+            rep.add(unit, f'_try__ignored exists [{name}]', 'schematic', False)
+            continue
+        reqs = requests_in(fn)
+        # body consists of requests only: no literal matching inlined
+        inl = [ast.unparse(n)[:60] for n in ast.walk(fn) if isinstance(n, ast.Call) and ast.unparse(n.func).startswith(('matcher', '_compile_re'))]
+        inl += [ast.unparse(n)[:60] for n in ast.walk(fn) if isinstance(n, ast.Subscript) and ast.unparse(n.value) == '_text']
+        nign = WIRING_GRAMMARS[name].count('ignore ')
+        rep.add(unit, f'_ignored requests each ignored rule once and matches nothing inline [{name}]', 'schematic',
+                len(reqs) == nign and not inl, detail={'requests': reqs, 'inline': inl})
+
+
+def memo_key_obligations(rep, tier, unit='wiring:memo-key'):
+    """the request a reference emits is keyed by the SAME function object for every reference to one parameterless rule:
+    a bare name in unnamed grammars, an attribute of the one run-time context in named grammars; a rule passed as an
+    argument is passed as that same object (not wrapped), so direct and indirect references share one memo entry"""
+    for ctx in (False, True):
+        r = X.Ref('A'); r._resolved = X.implementation_name('A')
+        direct = ast.parse(frag.emit(r, ctx))
+        callee = requests_in(direct)[0]
+        r2 = X.Ref('A'); r2._resolved = X.implementation_name('A')
+        call = X.Call(_ref('T'), [r2])
+        src = frag.emit(call, ctx)
+        tree = ast.parse(src)
+        pf = [n for n in ast.walk(tree) if isinstance(n, ast.Call) and ast.unparse(n.func) == '_ParseFunction']
+        arg0 = ast.unparse(pf[-1].args[1].elts[0]) if pf and isinstance(pf[-1].args[1], ast.Tuple) and pf[-1].args[1].elts else None
+        rep.add(unit, f'rule passed as argument is the same key object as a direct reference [ctx={int(ctx)}]', 'case_complete',
+                arg0 is not None and arg0.split('.')[-1] == callee.split('.')[-1] and not arg0.startswith('_ParseFunction'),
+                detail={'direct': callee, 'argument': arg0, 'src': src})
+
+
+ENTRY_GRAMMARS = {
+    'unnamed': 'start = A | B\nA(x) = x\nB = "b"\nclass K {\n a: B\n}\nclass P(q) {\n a: q\n}',
+    'named': 'grammar entrytest\nstart = A | B\nA(x) = x\nB = "b"\nclass K {\n a: B\n}\nclass P(q) {\n a: q\n}',
+    'no-start': 'First = "a" | Second\nSecond = "b"',
+    'class-start': 'class Start {\n a: "a"\n}\nB = "b"',
+}
+
+
+def _is_run_call(node, ctx, impl, via_closure=False):
+    """node is `_run([_ctx,] text, pos, <impl>, fullparse)`"""
+    if not (isinstance(node, ast.Call) and ast.unparse(node.func) == '_run' and not node.keywords):
+        return False
+    args = [ast.unparse(a) for a in node.args]
+    want = (['_ctx'] if ctx else []) + ['text', 'pos', impl, 'fullparse']
+    return args == want
+
+
+def entry_point_obligations(rep, tier, unit='wiring:entry-points'):
+    """every public entry point - module parse, R.parse for each rule, C.parse for each class - is
+    _run([_ctx,] text, pos, <implementation of that rule>, fullparse) with defaults pos=0, fullparse=True (C08),
+    and exposes no _ctx parameter (C11)"""
+    for gname, desc in ENTRY_GRAMMARS.items():
+        named = gname == 'named'
+        src, tree = _module_tree(desc)
+        fns = {n.name: n for n in tree.body if isinstance(n, ast.FunctionDef)}
+        classes = {n.name: n for n in tree.body if isinstance(n, ast.ClassDef)}
+
+        def sig_ok(fn):
+            a = fn.args
+            return [x.arg for x in a.args] == ['text', 'pos', 'fullparse'] and [ast.unparse(d) for d in a.defaults] == ['0', 'True']
+
+        def body_ok(fn, impl):
+            stmts = [s for s in fn.body if not (isinstance(s, ast.Expr) and isinstance(s.value, ast.Constant))]
+            return len(stmts) == 1 and isinstance(stmts[0], ast.Return) and _is_run_call(stmts[0].value, named, impl)
+
+        start_impl = {'unnamed': '_try_start', 'named': '_try_start', 'no-start': '_try_First', 'class-start': '_try_Start'}[gname]
+        rep.add(unit, f'module parse(text, pos=0, fullparse=True) runs the start rule [{gname}]', 'schematic',
+                'parse' in fns and sig_ok(fns['parse']) and body_ok(fns['parse'], start_impl),
+                detail={'src': ast.unparse(fns.get('parse')) if 'parse' in fns else None})
+        for rname in [n[len('_parse_'):] for n in fns if n.startswith('_parse_') and not n.startswith('_parse_function')]:
+            fn = fns['_parse_' + rname]
+            rep.add(unit, f'{rname}.parse runs the implementation of {rname} [{gname}]', 'schematic',
+                    sig_ok(fn) and body_ok(fn, '_try_' + rname), detail={'src': ast.unparse(fn)})
+            # the public object is ParsingRule(name, _parse_<name>, definition)
+            binds = [s for s in tree.body if isinstance(s, ast.Assign) and ast.unparse(s.targets[0]) == rname]
+            ok = len(binds) == 1 and isinstance(binds[0].value, ast.Call) and ast.unparse(binds[0].value.func) == 'ParsingRule' \
+                and ast.unparse(binds[0].value.args[1]) == '_parse_' + rname
+            rep.add(unit, f'{rname} = ParsingRule(.., _parse_{rname}, ..) [{gname}]', 'schematic', ok)
+        for cname, cdef in classes.items():
+            if cname in ('ParsedObject', '_Metadata', 'ParsingRule', 'InputError', 'ParseError', 'PartialParseError', 'Infix',
+                         'Prefix', 'Postfix', '_ParseFunction', '_StringLiteral', '_ByteLiteral', '_Context'):
+                continue
+            p = next((m for m in cdef.body if isinstance(m, ast.FunctionDef) and m.name == 'parse'), None)
+            static = p is not None and any(ast.unparse(d) == 'staticmethod' for d in p.decorator_list)
+            impl = ('_ctx.' if named else '') + '_try_' + cname
+            if p is not None and [x.arg for x in p.args.args] == ['text', 'pos', 'fullparse']:
+                rep.add(unit, f'class {cname}.parse runs the implementation of {cname} [{gname}]', 'schematic',
+                        static and sig_ok(p) and body_ok(p, impl), detail={'src': ast.unparse(p)})
+            elif p is not None:
+                # parameterised class: parse(*params) returns a callable (text, pos=0, fullparse=True)
+                lam = next((n for n in ast.walk(p) if isinstance(n, ast.Lambda)), None)
+                lam_params = [x.arg for x in lam.args.args] if lam else None
+                clo = next((s_ for s_ in p.body if isinstance(s_, ast.Assign) and ast.unparse(s_.targets[0]) == '_closure'), None)
+                cparams = [x.arg for x in p.args.args]
+                cok = clo is not None and isinstance(clo.value, ast.Call) and ast.unparse(clo.value.func) == '_ParseFunction' \
+                    and len(clo.value.args) == 3 and ast.unparse(clo.value.args[0]) == impl \
+                    and isinstance(clo.value.args[1], ast.Tuple) and [ast.unparse(x) for x in clo.value.args[1].elts] == cparams \
+                    and ast.unparse(clo.value.args[2]) == '()'
+                rep.add(unit, f'parameterised class {cname}.parse(args): start request is the hashable _ParseFunction(impl, (args..), ()) [{gname}]',
+                        'schematic', cok, detail={'src': ast.unparse(p)})
+                rep.add(unit, f'parameterised class {cname}.parse(args) returns a callable (text, pos=0, fullparse=True) without _ctx [{gname}]',
+                        'schematic', static and lam_params == ['text', 'pos', 'fullparse'] and
+                        _is_run_call(lam.body, named, '_closure'), detail={'src': ast.unparse(p)})
+            else:
+                rep.add(unit, f'class {cname} has a parse entry point [{gname}]', 'schematic', False)
